@@ -540,7 +540,40 @@ def rule_ep(fx, rep):
             ok = False
             rep.violation("C01-EP", f"C01-EP/{norm(b.name)}", f"`{b.name}` builds an en-passant move but {why}",
                           {"fn": b.name, "file": b.file, "line": t.get("line")})
-    rep.rule("C01-EP", len(sites), 1, ok, "en-passant constructions guarded by an after-capture probe")
+    # while in check, an en-passant capture helps in two ways: it removes a checking pawn (the *captured* pawn is in the check mask)
+    # or it interposes (the *target* square is in the check mask). A check-mask test in front of the en-passant moves must admit
+    # both (seed C01-7b kept only the first)
+    n_mask = 0
+    for (b, bb, t) in sites:
+        if "::tests::" in b.name:
+            continue
+        for (e, pol, w) in guard_conditions(b, bb, expand_named=True):
+            if pol is not True or not any(isinstance(x, tuple) and x and x[0] in ("var", "arg") and "check_mask" in str(x[1:]) for x in walk(e)) and "check_mask" not in show(e):
+                continue
+            sq_args = []
+            for c in [x for x in walk(e) if isinstance(x, tuple) and x and x[0] == "call" and isinstance(x[1], str)]:
+                if c[1].endswith("Square::bb") and c[2]:
+                    sq_args.append(deep_strip(c[2][0]))
+                elif c[1].endswith("Bitboard::contains") and len(c[2]) == 2:
+                    sq_args.append(deep_strip(c[2][1]))
+
+            def is_target(x):
+                return isinstance(x, tuple) and x and x[0] == "field" and x[2] == "0" and "en_passant_target" in show(x) and not find_calls(x, "Square::backward", "Square::forward")
+
+            def is_victim(x):
+                return isinstance(x, tuple) and x and x[0] == "call" and str(x[1]).endswith("Square::backward") and "en_passant_target" in show(x)
+            if not sq_args or not any(is_target(x) or is_victim(x) for x in sq_args):
+                continue
+            n_mask += 1
+            has_t, has_v = any(is_target(x) for x in sq_args), any(is_victim(x) for x in sq_args)
+            good = has_t and has_v
+            rep.obligation(good)
+            if not good:
+                ok = False
+                missing = "the en-passant target square itself (a capture that interposes there)" if not has_t else "the captured pawn's square (a capture of the checking pawn)"
+                rep.violation("C01-EP", f"C01-EP/check-mask/{norm(b.name).split('::')[-1]}", f"`{b.name}`: the check-mask test in front of the en-passant moves (`{show(e)[:120]}`) does not admit {missing}: that legal capture is never generated while in check",
+                              {"fn": b.name, "file": b.file, "line": t.get("line")})
+    rep.rule("C01-EP", len(sites) + n_mask, 1, ok, "en-passant constructions guarded by an after-capture probe; check-mask gate admits both squares")
 
 
 # ---- C01-KING ------------------------------------------------------------------------------
@@ -1289,6 +1322,8 @@ MUTANTS = [
     {"name": "benign: is_capture by a match over all six capturing labels", "benign": True,
      "edits": [(MV, "        (self.data() & CAPTURE_BIT_MASK) == CAPTURE_BIT_MASK\n", "        matches!(\n            self.flags(),\n            Flags::Capture\n                | Flags::EnPassant\n                | Flags::CaptureAndPromoteToBishop\n                | Flags::CaptureAndPromoteToKnight\n                | Flags::CaptureAndPromoteToRook\n                | Flags::CaptureAndPromoteToQueen\n        )\n"),
                (MV, "const CAPTURE_BIT_MASK: u16 = 0b0001_0000_0000_0000;\n", "")]},
+    {"name": "en-passant gate while in check tests only the captured pawn's square (seed C01-7b)", "expect": "C01-EP/check-mask",
+     "edits": [(GEN, "        if (check_mask & (en_passant_target.bb() | captured_pawn.bb())).any() {", "        if check_mask.contains(captured_pawn) {")]},
     {"name": "move list capacity below the 218-move maximum (seed C01-5a)", "expect": "C01-CAPACITY",
      "edits": [("src/chess/moves.rs", "const MAX_LEGAL_MOVES: usize = 218;", "const MAX_LEGAL_MOVES: usize = 200;")]},
     {"name": "diagonal attackers exclude queens", "expect": "C01-ATTACKERS/bishop_attacks",
